@@ -421,6 +421,10 @@ fn run<F: TopicSubscriptionFilter + Send + 'static>(filter: F, fm: FilterModel) 
                 if !was {
                     // entered the mesh in this step
                     let exp = expiry.get(&(t.clone(), *m)).copied().unwrap_or(Duration::ZERO);
+                    if exp > now {
+                        // the same fact breaks C28 (eligibility) and C32 (backoff never shortened): report it under both
+                        soft_violation(violation!("C28/added-while-backed-off", "peer p{} entered mesh {t} at {now:?} but is backed off until {exp:?} (op {op:?})", peers[i].idx));
+                    }
                     ensure!(exp <= now, "C32/added-while-backed-off", "peer p{} entered mesh {t} at {now:?} but is backed off until {exp:?} (op {op:?})", peers[i].idx);
                     let (sb, sa) = (before.score.get(m).copied().unwrap_or(0.0), after.score.get(m).copied().unwrap_or(0.0));
                     ensure!(!(sb < 0.0 && sa < 0.0), "C28/added-negative-score", "peer p{} entered mesh {t} with score {sb} -> {sa} (op {op:?})", peers[i].idx);
